@@ -171,9 +171,11 @@ class SubunitBase(ABC):
         self._update_callbacks.add(callback)
 
     def unregister_update_callback(self, callback: Callable[[str, Any], None]):
-        self._update_callbacks.remove(callback)
+        self._update_callbacks.discard(callback)
 
     def _call_registered_update_callbacks(self, function_name: str, value: Any):
         if self._initialized:
-            for callback in self._update_callbacks:
-                callback(function_name, value)
+            # Iterate over a copy since callbacks can (un)register callbacks or close the subunit
+            for callback in list(self._update_callbacks):
+                if callback in self._update_callbacks:
+                    callback(function_name, value)
